@@ -129,6 +129,9 @@ def run(tier, seed):
         n = 30 if tier == "quick" else 200
         scripts = [th_history(rng, keys, params["H"], rng.randint(4, 40 if tier == "quick" else 200)) for _ in range(n)]
         jobs_random.append({"cfg": kbd, "params": params, "tag": "r:" + name, "scripts": scripts})
+    # the documented short spellings of the variant keywords denote the same variants (the monitor's parameters come
+    # from the description, so a keyword mapped to another variant is rejected)
+    jobs_random += spelling_twins(jobs_random)
     for label, jobs in (("witness", witness_jobs), ("random", jobs_random)):
         if not jobs:
             continue
